@@ -113,11 +113,12 @@ Definition entry_eqb (a b : entry) : bool := String.eqb (fst a) (fst b) && slot_
 (* one observed __getitem__ call: the index form, outcome kind (0 = returned, 1 = ValueError,
    2 = KeyError, 3 = IndexError), whether a list was returned, the samples, the outermost loader calls *)
 Record hobs := {
-  h_idx : index;
-  h_kind : nat;
+  h_op : op;                      (* the step: indexing, len(), iter(), next(it_k), for-loop over it_k *)
+  h_kind : nat;                   (* ... 5 = a loader's own exception, 6 = StopIteration *)
   h_many : bool;
-  h_res : list (res value);
-  h_log : option (list string)
+  h_res : list (res value);       (* for-loop over an iterator: also the samples yielded before an exception *)
+  h_log : option (list string);
+  h_len : Z                       (* what len() returned (OpLen) *)
 }.
 
 (* one observed use of the static helpers *)
@@ -188,13 +189,13 @@ Definition batch_eqb (a b : batch value) : bool :=
   end.
 
 (* model vs implementation for one call *)
-Definition hist_model_ok (st : stack value) (m : mwrap) (h : hobs) : bool :=
+Definition hist_model_ok (st : stack value) (m : mwrap) (idx : index) (h : hobs) : bool :=
   (* kind 5: a loader of the harness stack raised its own exception (loaders of the model are total functions);
      whether it had to is decided by the Python oracle.  The accesses AFTER it are compared as usual: nothing of
      the aborted sample may survive *)
   if Nat.eqb (h_kind h) 5 then true else
-  if above_range (s_len value st) (h_idx h) then true else
-  match getitem value VInt cproj st m (h_idx h) with
+  if above_range (s_len value st) idx then true else
+  match getitem value VInt cproj st m idx with
   | GValueError => Nat.eqb (h_kind h) 1
   | GOne r =>
       negb (h_many h) &&
@@ -211,6 +212,53 @@ Definition hist_model_ok (st : stack value) (m : mwrap) (h : hobs) : bool :=
            | None => true
            | Some lg => list_eqb String.eqb (List.concat (map (fun _ => named_only (m_names m)) l)) lg
            end
+  end.
+
+(* the samples a for-loop was given before the first failing one *)
+Fixpoint good_prefix (l : list (res value)) : list (res value) :=
+  match l with
+  | [] => []
+  | r :: t => if res_is_err value r then [] else r :: good_prefix t
+  end.
+
+Definition log_ok (m : mwrap) (nsamples : nat) (h : hobs) : bool :=
+  match h_log h with
+  | None => true
+  | Some lg => list_eqb String.eqb (List.concat (repeat (named_only (m_names m)) nsamples)) lg
+  end.
+
+(* model vs implementation over a whole history of steps on ONE ModeWrapper object, iterator objects included: the
+   model's iterator states are threaded through the steps *)
+Fixpoint hist_model_all (st : stack value) (m : mwrap) (f : its) (hs : list hobs) : bool :=
+  match hs with
+  | [] => true
+  | h :: rest =>
+      match h_op h with
+      | OpGet i =>
+          (* (not through run_op: vm_compute is call-by-value and an index like 10^20 must not reach the loader table) *)
+          hist_model_ok st m i h && hist_model_all st m f rest
+      | o =>
+          let '(x, f') := run_op value VInt cproj st m f o in
+          let k5 := Nat.eqb (h_kind h) 5 in
+          (* a loader's own exception left the generator frame: that iterator is finished *)
+          let f'' := if k5 then match o with OpNext k | OpRest k => upd f' k None | _ => f' end else f' in
+          (if k5 then true else
+           match x with
+           | PGet _ => false
+           | PLen z => Nat.eqb (h_kind h) 0 && (z =? h_len h)
+           | PIter => Nat.eqb (h_kind h) 0
+           | PNext None => Nat.eqb (h_kind h) 6
+           | PNext (Some r) =>
+               match r with
+               | RErr => Nat.eqb (h_kind h) 2
+               | RIndexErr => Nat.eqb (h_kind h) 3
+               | _ => Nat.eqb (h_kind h) 0 && negb (h_many h) && list_eqb res_eqb [r] (h_res h) && log_ok m 1 h
+               end
+           | PRest l =>
+               Nat.eqb (h_kind h) (first_err l) && list_eqb res_eqb (good_prefix l) (h_res h) &&
+               (if Nat.eqb (h_kind h) 0 then h_many h && log_ok m (List.length l) h else true)
+           end) && hist_model_all st m f'' rest
+      end
   end.
 
 (* ---------- the spec, evaluated on what the implementation returned ---------- *)
@@ -235,10 +283,10 @@ Definition spec_indices (len : Z) (i : index) : option (bool * list (option Z)) 
       else Some (true, map Some (py_slice_walk (S (Z.to_nat len)) (py_start len step a) (py_stop len step b) step))
   end.
 
-Definition hist_spec_ok (st : stack value) (items : list string) (rc : bool) (h : hobs) : bool :=
+Definition hist_spec_ok (st : stack value) (items : list string) (rc : bool) (idx : index) (h : hobs) : bool :=
   if Nat.eqb (h_kind h) 5 then true else
-  if above_range (s_len value st) (h_idx h) then true else
-  match spec_indices (s_len value st) (h_idx h) with
+  if above_range (s_len value st) idx then true else
+  match spec_indices (s_len value st) idx with
   | None => Nat.eqb (h_kind h) 1
   | Some (many, idxs) =>
       let exp := map (fun oi => match oi with
@@ -247,6 +295,34 @@ Definition hist_spec_ok (st : stack value) (items : list string) (rc : bool) (h 
                                 end) idxs in
       if negb (Nat.eqb (first_err exp) 0) then Nat.eqb (h_kind h) (first_err exp)
       else Nat.eqb (h_kind h) 0 && Bool.eqb many (h_many h) && list_eqb res_eqb exp (h_res h)
+  end.
+
+(* the spec over a whole history: indexing as above; iterator steps by counting over the steps before them
+   (Spec.next_due / rest_due), with how those steps were OBSERVED to end *)
+Fixpoint hist_spec_all (st : stack value) (items : list string) (rc : bool) (past : list (op * nat)) (hs : list hobs) : bool :=
+  match hs with
+  | [] => true
+  | h :: rest =>
+      (match h_op h with
+       | OpGet i => hist_spec_ok st items rc i h
+       | OpLen => Nat.eqb (h_kind h) 0 && (h_len h =? s_len value st)
+       | OpIter _ => Nat.eqb (h_kind h) 0
+       | OpNext k =>
+           if Nat.eqb (h_kind h) 5 then true else
+           match next_due (s_len value st) k past with
+           | None => Nat.eqb (h_kind h) 6
+           | Some j =>
+               match spec_sample value VInt cproj st items rc (Z.of_nat j) with
+               | RErr => Nat.eqb (h_kind h) 2
+               | RIndexErr => Nat.eqb (h_kind h) 3
+               | e => Nat.eqb (h_kind h) 0 && list_eqb res_eqb [e] (h_res h)
+               end
+           end
+       | OpRest k =>
+           if Nat.eqb (h_kind h) 5 then true else
+           let exp := map (fun j => spec_sample value VInt cproj st items rc (Z.of_nat j)) (rest_due (s_len value st) k past) in
+           Nat.eqb (h_kind h) (first_err exp) && list_eqb res_eqb (good_prefix exp) (h_res h)
+       end) && hist_spec_all st items rc ((h_op h, h_kind h) :: past) rest
   end.
 
 Definition helper_model_ok (h : helper) : bool :=
@@ -273,7 +349,7 @@ Definition check (c : case_t) : nat :=
       let items := split_space (c_mode c) in
       let iter_idx := map Z.of_nat (seq 0 (Z.to_nat (c_len c))) in
       let spec_ok :=
-          forallb (hist_spec_ok st items (c_rc c)) (c_hist c) &&
+          hist_spec_all st items (c_rc c) [] (c_hist c) &&
           (c_lenobs c =? c_len c) &&
           match c_iter c with
           | None => true
@@ -282,7 +358,7 @@ Definition check (c : case_t) : nat :=
           end in
       let model_ok :=
           list_eqb entry_eqb (m_plan m) (c_plan c) && Bool.eqb (m_propagate m) (c_prop c) &&
-          forallb (hist_model_ok st m) (c_hist c) &&
+          hist_model_all st m no_its (c_hist c) &&
           (mw_len value st =? c_lenobs c) &&
           match c_iter c with
           | None => Nat.eqb (c_iter_kind c) 5 || has_err (iter value VInt cproj st m)
